@@ -195,6 +195,17 @@ func genericCheck(w *World) []Violation {
 	if w.Outcome == "deadlock" {
 		vs = append(vs, Violation{Prop: curProp, Sig: "deadlock:" + blockedKinds(w, ""), Msg: fmt.Sprintf("threads wait for mutexes that are never released: %v", w.Blocked)})
 	}
+	if curProp == "C20" && w.sched != nil {
+		// data races on shared maps: two accesses, one of them a write, that nothing the shims see orders
+		for _, r := range w.sched.Races {
+			a, b := r.SiteA, r.SiteB
+			if b < a {
+				a, b = b, a
+			}
+			vs = append(vs, Violation{Prop: "C20", Sig: "map-race:" + r.Field + ":" + a + "|" + b,
+				Msg: fmt.Sprintf("map %s is accessed by %s and by %s without any happens-before order between the two (lock, wait group, once, condition variable, atomic, goroutine start)", r.Field, r.SiteA, r.SiteB)})
+		}
+	}
 	return vs
 }
 
